@@ -81,6 +81,16 @@ def le64(v):
     return struct.pack("<q", v)
 
 
+def tr_overlaps(t, r):
+    """telem.TimeRange.OverlapsWith for valid ranges"""
+    if t == r or r[0] == t[0]:
+        return True
+    if r[1] == t[0] or r[0] == t[1]:
+        return False
+    inside = lambda x, y: x[0] <= y < x[1]
+    return inside(t, r[1]) or inside(t, r[0]) or inside(r, t[0]) or inside(r, t[1])
+
+
 class Interp:
     """Derives, from a script, the per-channel domain-level histories, the specification script and the
     expected error flags."""
@@ -250,10 +260,23 @@ class Interp:
                 raise Bad("delete under an open writer")
         idxs = [k for k in keys if self.ch[k]["index"] == 0]
         for i in idxs:
+            # DeleteTimeRange refuses the index channel when a dependent channel still has a domain
+            # overlapping the range (HasDataFor, domain level) — after the data channels of the same call
+            # were already cut. Such half-done calls are not generated.
             for k2, c in self.ch.items():
-                if c["live"] and c["index"] == i and k2 not in keys and \
-                        any(a <= s < b for d in c["doms"] for s in d[1]):
-                    raise Bad("index delete with dependent data")
+                if not (c["live"] and c["index"] == i):
+                    continue
+                for start, st in c["doms"]:
+                    if not st:
+                        continue
+                    if k2 in keys and any(a <= s < b for s in st):
+                        left = [s for s in st if s < a]
+                        right = [s for s in st if s >= b]
+                        parts = ([(start, left[-1] + 1)] if left else []) + ([(right[0], st[-1] + 1)] if right else [])
+                    else:
+                        parts = [(start, st[-1] + 1)]
+                    if any(tr_overlaps(p, (a, b)) for p in parts):
+                        raise Bad("index delete with dependent data")
         for k in [k for k in keys if k not in idxs] + idxs:
             self.emit(k, "DDelete %s %s %s" % (cZ(a), cZ(b), self.resolver(k, a, b)))
             nd = []
@@ -378,42 +401,55 @@ def classify_op(e):
     raise ValueError("unknown call kind %r" % e)
 
 
-def c_ent(e):
-    d = e["d"]
-    return "(%s, %s, %s)" % (cZ(e["s"]), cZ(e["e"]), "None" if d == "!" else "Some %s" % cbytes(bytes.fromhex(d)))
+class Tables:
+    def __init__(self):
+        self.blobs, self.chs, self.doms = {}, {}, {}
+
+    @staticmethod
+    def intern(tab, key):
+        if key not in tab:
+            tab[key] = len(tab)
+        return tab[key]
+
+    def ent(self, e):
+        d = e["d"]
+        ref = "None" if d == "!" else "Some %d%%nat" % self.intern(self.blobs, d)
+        return "(%s, %s, %s)" % (cZ(e["s"]), cZ(e["e"]), ref)
+
+    def chobs(self, key, o):
+        st = {"ok": "COk", "absent": "CAbsent", "err": "CErr"}[o["st"]]
+        t = "mkChobs %s %s %s [%s]" % (key, st, clZ(o["full"]), "; ".join(clZ(v) for v in o["nar"]))
+        return "%d%%nat" % self.intern(self.chs, t)
+
+    def dom(self, k, d):
+        if d["open"] != "":
+            raise ValueError("domain.Open failed on an image: %s" % d["open"])
+        t = "mkRdom %s [%s] [%s] %s [%s] [%s]" % (
+            k, "; ".join(self.ent(e) for e in d["list"]), "; ".join(c_probe(p) for p in d["probe"]),
+            cbool(d["fw"] == ""), "; ".join(self.ent(e) for e in d["list2"]),
+            "; ".join(c_probe(p) for p in d["probe2"]))
+        return "%d%%nat" % self.intern(self.doms, t)
 
 
 def c_probe(p):
     return "(%s, %s)" % (cbool(p["c"]), "Some (%s, %s)" % (cZ(p["s"]), cZ(p["e"])) if p["f"] else "None")
 
 
-def c_chobs(key, o):
-    st = {"ok": "COk", "absent": "CAbsent", "err": "CErr"}[o["st"]]
-    return "mkChobs %s %s %s [%s]" % (key, st, clZ(o["full"]), "; ".join(clZ(v) for v in o["nar"]))
-
-
-def c_obs(case, o):
+def c_obs(case, o, tb):
+    byk = lambda kv: int(kv[0])
     if o["open"] != "":
         ch, fw, ch2 = "[]", "[]", "[]"
     else:
-        ch = "[" + "; ".join(c_chobs(k, v) for k, v in sorted(o["ch"].items(), key=lambda kv: int(kv[0]))) + "]"
+        ch = "[" + "; ".join(tb.chobs(k, v) for k, v in sorted(o["ch"].items(), key=byk)) + "]"
         fws = []
         for g, r in zip(case.get("follow", []), o.get("fw") or []):
             if r == "skip":
                 continue
             fws.append("(%s, %s)" % (clN(g["keys"]), cbool(r == "")))
         fw = "[" + "; ".join(fws) + "]"
-        ch2 = "[" + "; ".join(c_chobs(k, v) for k, v in sorted((o.get("ch2") or {}).items(),
-                                                                key=lambda kv: int(kv[0]))) + "]"
-    doms = []
-    for k, d in sorted((o.get("dom") or {}).items(), key=lambda kv: int(kv[0])):
-        if d["open"] != "":
-            raise ValueError("domain.Open failed on an image: %s" % d["open"])
-        doms.append("mkDomobs %s [%s] [%s] %s [%s] [%s]" % (
-            k, "; ".join(c_ent(e) for e in d["list"]), "; ".join(c_probe(p) for p in d["probe"]),
-            cbool(d["fw"] == ""), "; ".join(c_ent(e) for e in d["list2"]),
-            "; ".join(c_probe(p) for p in d["probe2"])))
-    return "mkObs %s %s %s %s [%s]" % (cbool(o["open"] == ""), ch, fw, ch2, "; ".join(doms))
+        ch2 = "[" + "; ".join(tb.chobs(k, v) for k, v in sorted((o.get("ch2") or {}).items(), key=byk)) + "]"
+    doms = [tb.dom(k, d) for k, d in sorted((o.get("dom") or {}).items(), key=byk)]
+    return "mkRobs %s %s %s %s [%s]" % (cbool(o["open"] == ""), ch, fw, ch2, "; ".join(doms))
 
 
 def harness_violation(case, r):
@@ -443,11 +479,15 @@ def to_coq(case, r):
     errs = "; ".join(cbool(e != "") for e in r["errs"])
     follow = "; ".join("(%s, %s)" % (clN(g["keys"]), cZ(g["start"])) for g in case.get("follow", []))
     imgs = "; ".join("(%d%%nat, %d%%nat, %d%%nat)" % (i["k"], i["t"], i["o"]) for i in r["imgs"])
-    obs = ";\n      ".join(c_obs(case, o) for o in r["obs"])
-    t = ("(mkCase %s %d %s %s [%s]\n    [%s]\n    [%s]\n    [%s]\n    [%s]\n    [%s]\n    [%s]\n    [%s])" % (
+    tb = Tables()
+    obs = ";\n      ".join(c_obs(case, o, tb) for o in r["obs"])
+    blobs = ";\n      ".join(cbytes(bytes.fromhex(h)) for h in tb.blobs)
+    t = ("(mkCase %s %d %s %s [%s]\n    [%s]\n    [%s]\n    [%s]\n    [%s]\n    [%s]\n    [%s]\n    [%s]\n    [%s]\n"
+         "    [%s]\n    [%s])" % (
         cbool(case.get("full", False)), case["cap"], cZ(thr_bytes(case["cap"], case["thr"])),
         cZ(case.get("dfollow", 0)), follow, script, errs, ";\n     ".join(chans), ";\n     ".join(glog),
-        "; ".join("%d%%nat" % b for b in r["bounds"]), imgs, obs))
+        "; ".join("%d%%nat" % b for b in r["bounds"]), imgs, blobs, ";\n      ".join(tb.chs),
+        ";\n      ".join(tb.doms), obs))
     return t
 
 
@@ -671,6 +711,27 @@ def neighbours(case, rng):
     return out
 
 
+def coq_eval(body, timeout=600):
+    import subprocess
+    cdir = os.path.join(vlib.BUILD, "cases", PID)
+    os.makedirs(cdir, exist_ok=True)
+    path = os.path.join(cdir, "print_%s_%d.v" % (PID, os.getpid()))
+    with open(path, "w") as fh:
+        fh.write(COQ_IMPORTS + "\nFrom Coq Require Import List.\nImport ListNotations.\n" + COQ_EXTRA + "\n" + body + "\n")
+    try:
+        r = subprocess.run(["coqc", *vlib.COQ_ARGS, path], cwd=vlib.COQ, timeout=timeout,
+                           stdout=subprocess.PIPE, stderr=subprocess.STDOUT, text=True)
+        return r.stdout
+    except subprocess.TimeoutExpired:
+        return "timeout"
+    finally:
+        for ext in (".v", ".vo", ".glob", ".vok", ".vos"):
+            try:
+                os.remove(path[:-2] + ext)
+            except OSError:
+                pass
+
+
 TAGS = {1: "crash_in_channel_create_before_meta_rename",
         2: "crash_between_index_truncate_and_writeat",
         3: "torn_index_writeat",
@@ -683,7 +744,7 @@ def tags(case, r):
     t = to_coq(case, r)
     if t is None:
         return set()
-    out = coq_print(PID, COQ_IMPORTS + "\n" + COQ_EXTRA, "Eval vm_compute in viol_tags %s." % t)
+    out = coq_eval("Definition the_case : case_t := %s.\nEval vm_compute in viol_tags the_case." % t)
     m = re.search(r"=\s*\[([^\]]*)\]", out.replace("\n", " "))
     if not m:
         return {"unclassified"}
@@ -695,8 +756,49 @@ def tags(case, r):
 
 def model_dump(case, r):
     t = to_coq(case, r)
-    return coq_print(PID, COQ_IMPORTS + "\n" + COQ_EXTRA,
-                     "Eval vm_compute in mismatch_detail %s." % t)[-6000:]
+    return coq_eval("Definition the_case : case_t := %s.\nEval vm_compute in mismatch_detail the_case.\n"
+                    "Eval vm_compute in viol_detail the_case." % t)[-6000:]
+
+
+def known_cases():
+    out = []
+    if os.path.isdir(KNOWN_DIR):
+        for f in sorted(os.listdir(KNOWN_DIR)):
+            if f.endswith(".json"):
+                c = json.load(open(os.path.join(KNOWN_DIR, f)))
+                c["full"] = True
+                c["witness"] = f
+                out.append(c)
+    return out
+
+
+def extra(ctx):
+    """The witnesses of the known findings: every image judged by the full monitor."""
+    import check
+    cases = known_cases()
+    if not cases:
+        return
+    res, M, V, hv, errs = ctx.evaluate(cases)
+    for e in errs:
+        ctx.notes.append("witness evaluation error: %s" % e[:300])
+    for i, w in hv:
+        check.report_case_violation(ctx, cases[i], res.get(i), w)
+    hit = []
+    for i, c in enumerate(cases):
+        if i in M:
+            rp = check.write_replay(ctx, "V2", "model and implementation disagree on a known-finding witness", c,
+                                    res.get(i), {"correspondence": "corr:%s/witness/%s" % (PID, c["witness"]),
+                                                 "model": model_dump(c, res.get(i))})
+            ctx.violations.append({"kind": "V2", "what": "correspondence broke on witness %s" % c["witness"],
+                                   "replay": rp, "found_input": False})
+        if i in V:
+            check.report_case_violation(ctx, c, res.get(i),
+                                        "monitor ok_%s rejects the implementation's behaviour" % PID)
+            hit.append(c["witness"])
+        else:
+            ctx.notes.append("witness %s no longer violates the property" % c["witness"])
+    ctx.extra_cov["known_witnesses_run"] = len(cases)
+    ctx.extra_cov["known_witnesses_violating"] = hit
 
 
 def consts(repo):
